@@ -650,6 +650,14 @@ class C06:
                 add(bs(f, cwp[:-32]), "commit-truncate-scalar")
                 add(bs(f, cwp + pyc.sc(rng.randrange(pyc.R))), "commit-extend-scalar")
                 add(bs(f, cwp[:80] + pyc.sc(rng.randrange(pyc.R)) + cwp[80:]), "commit-insert-scalar")
+                # ZERO scalars (and the scalar 1) inserted at every scalar boundary, once and twice: a verifier that skips "neutral" responses
+                # must not thereby forget how many responses the proof carries
+                for cut in range(48, len(cwp) + 1, 32):
+                    for z in (bytes(32), bytes(64), pyc.sc(1)):
+                        add(bs(f, cwp[:cut] + z + cwp[cut:]), "commit-insert-neutral-scalar")
+                # a response REPLACED by zero
+                for cut in range(48, len(cwp) - 32, 32):
+                    add(bs(f, cwp[:cut] + bytes(32) + cwp[cut + 32:]), "commit-zero-response")
                 for n in (1, 7, 31): add(bs(f, cwp + bytes(n)), "commit-trailing-bytes")
                 for n in (1, 31, 33): add(bs(f, cwp[:-n]), "commit-truncate-bytes")
                 # every field of the commitment-with-proof replaced by the same field of a SECOND commitment to the same messages
